@@ -133,6 +133,12 @@ func NewSimStore(w *World, db bun.IDB, l ledger.Ledger) *SimStore {
 	}
 }
 
+// lctx marks a context with the ledger this store serves: the interpreter audits every row a statement of
+// the real storage layer returns, locks or changes on its behalf (sqlmini_exec.go:auditRows).
+func (s *SimStore) lctx(ctx context.Context) context.Context {
+	return context.WithValue(ctx, stmtLedgerKey, s.l.Name)
+}
+
 func (s *SimStore) wrap(st ledgercontroller.Store) *SimStore {
 	return &SimStore{DefaultStoreAdapter: st.(*systemcontroller.DefaultStoreAdapter), w: s.w, l: s.l}
 }
@@ -197,7 +203,7 @@ func (s *SimStore) BeginTX(ctx context.Context, opts *sql.TxOptions) (ledgercont
 			return nil, nil, errConnLost
 		}
 	}
-	st, tx, err := s.DefaultStoreAdapter.BeginTX(ctx, opts)
+	st, tx, err := s.DefaultStoreAdapter.BeginTX(s.lctx(ctx), opts)
 	if err != nil {
 		return nil, nil, err
 	}
@@ -214,7 +220,7 @@ func (s *SimStore) Commit(ctx context.Context) error {
 			_ = s.onSession(ctx, func(_ context.Context, c *conn) error { c.commitFault = k; return nil })
 		}
 	}
-	err := s.DefaultStoreAdapter.Commit(ctx)
+	err := s.DefaultStoreAdapter.Commit(s.lctx(ctx))
 	if err == nil {
 		s.w.mu.Lock()
 		s.w.lastCommitTask = taskKeyOf(ctx)
@@ -226,10 +232,10 @@ func (s *SimStore) Commit(ctx context.Context) error {
 func (s *SimStore) Rollback(ctx context.Context) error {
 	if f := s.w.Yield(ctx, "Rollback", "", FCrash); f != nil && f.Kind == FShutdown {
 		// still roll back so that database/sql releases its resources
-		_ = s.DefaultStoreAdapter.Rollback(ctx)
+		_ = s.DefaultStoreAdapter.Rollback(s.lctx(ctx))
 		return errShutdown
 	}
-	return s.DefaultStoreAdapter.Rollback(ctx)
+	return s.DefaultStoreAdapter.Rollback(s.lctx(ctx))
 }
 
 func (s *SimStore) LockLedger(ctx context.Context) (ledgercontroller.Store, bun.IDB, func() error, error) {
@@ -248,7 +254,7 @@ func (s *SimStore) LockLedger(ctx context.Context) (ledgercontroller.Store, bun.
 			return nil, nil, nil, pgErr("53100", "out of shared memory (injected)", "")
 		}
 	}
-	st, db, release, err := s.DefaultStoreAdapter.LockLedger(ctx)
+	st, db, release, err := s.DefaultStoreAdapter.LockLedger(s.lctx(ctx))
 	if err != nil {
 		return nil, nil, nil, err
 	}
@@ -272,7 +278,7 @@ func (s *SimStore) GetMigrationsInfo(ctx context.Context) ([]migrations.Info, er
 
 func (s *SimStore) GetBalances(ctx context.Context, q ledgerstore.BalanceQuery) (ledger.Balances, error) {
 	if s.w.realSQL {
-		return s.DefaultStoreAdapter.GetBalances(ctx, q)
+		return s.DefaultStoreAdapter.GetBalances(s.lctx(ctx), q)
 	}
 	type pair struct{ account, asset string }
 	var pairs []pair
@@ -322,7 +328,7 @@ func (s *SimStore) GetBalances(ctx context.Context, q ledgerstore.BalanceQuery) 
 
 func (s *SimStore) CommitTransaction(ctx context.Context, tx *ledger.Transaction) error {
 	if s.w.realSQL {
-		return s.DefaultStoreAdapter.CommitTransaction(ctx, tx)
+		return s.DefaultStoreAdapter.CommitTransaction(s.lctx(ctx), tx)
 	}
 	updates := tx.VolumeUpdates() // the real Go function feeding the upsert
 	pcv := ledger.PostCommitVolumes{}
@@ -486,7 +492,7 @@ func (s *SimStore) updateTx(ctx context.Context, op string, id uint64, mutate fu
 
 func (s *SimStore) RevertTransaction(ctx context.Context, id uint64, at time.Time) (*ledger.Transaction, bool, error) {
 	if s.w.realSQL {
-		return s.DefaultStoreAdapter.RevertTransaction(ctx, id, at)
+		return s.DefaultStoreAdapter.RevertTransaction(s.lctx(ctx), id, at)
 	}
 	return s.updateTx(ctx, "RevertTransaction", id, func(sess *Session, t *ledger.Transaction) bool {
 		if t.RevertedAt != nil {
@@ -504,7 +510,7 @@ func (s *SimStore) RevertTransaction(ctx context.Context, id uint64, at time.Tim
 
 func (s *SimStore) UpdateTransactionMetadata(ctx context.Context, id uint64, m metadata.Metadata, at time.Time) (*ledger.Transaction, bool, error) {
 	if s.w.realSQL {
-		return s.DefaultStoreAdapter.UpdateTransactionMetadata(ctx, id, m, at)
+		return s.DefaultStoreAdapter.UpdateTransactionMetadata(s.lctx(ctx), id, m, at)
 	}
 	return s.updateTx(ctx, "UpdateTransactionMetadata", id, func(sess *Session, t *ledger.Transaction) bool {
 		contains := true
@@ -530,7 +536,7 @@ func (s *SimStore) UpdateTransactionMetadata(ctx context.Context, id uint64, m m
 
 func (s *SimStore) DeleteTransactionMetadata(ctx context.Context, id uint64, key string, at time.Time) (*ledger.Transaction, bool, error) {
 	if s.w.realSQL {
-		return s.DefaultStoreAdapter.DeleteTransactionMetadata(ctx, id, key, at)
+		return s.DefaultStoreAdapter.DeleteTransactionMetadata(s.lctx(ctx), id, key, at)
 	}
 	return s.updateTx(ctx, "DeleteTransactionMetadata", id, func(sess *Session, t *ledger.Transaction) bool {
 		if _, ok := t.Metadata[key]; !ok {
@@ -552,7 +558,7 @@ func acctKey(l, address string) rowKey { return rowKey{"acct", l, address} }
 
 func (s *SimStore) UpsertAccounts(ctx context.Context, accounts ...ledger.AccountWithDefaultMetadata) error {
 	if s.w.realSQL {
-		return s.DefaultStoreAdapter.UpsertAccounts(ctx, accounts...)
+		return s.DefaultStoreAdapter.UpsertAccounts(s.lctx(ctx), accounts...)
 	}
 	note := make([]string, len(accounts))
 	for i, a := range accounts {
@@ -627,7 +633,7 @@ func (s *SimStore) UpsertAccounts(ctx context.Context, accounts ...ledger.Accoun
 
 func (s *SimStore) UpdateAccountsMetadata(ctx context.Context, m map[string]metadata.Metadata, at time.Time) error {
 	if s.w.realSQL {
-		return s.DefaultStoreAdapter.UpdateAccountsMetadata(ctx, m, at)
+		return s.DefaultStoreAdapter.UpdateAccountsMetadata(s.lctx(ctx), m, at)
 	}
 	addrs := make([]string, 0, len(m))
 	for a := range m {
@@ -675,7 +681,7 @@ func (s *SimStore) UpdateAccountsMetadata(ctx context.Context, m map[string]meta
 
 func (s *SimStore) DeleteAccountMetadata(ctx context.Context, address, key string) error {
 	if s.w.realSQL {
-		return s.DefaultStoreAdapter.DeleteAccountMetadata(ctx, address, key)
+		return s.DefaultStoreAdapter.DeleteAccountMetadata(s.lctx(ctx), address, key)
 	}
 	return s.call(ctx, "DeleteAccountMetadata", address+"#"+key, lockStmtKinds, func(sess *Session) error {
 		k := acctKey(s.l.Name, address)
@@ -700,7 +706,7 @@ func (s *SimStore) DeleteAccountMetadata(ctx context.Context, address, key strin
 
 func (s *SimStore) InsertSchema(ctx context.Context, schema *ledger.Schema) error {
 	if s.w.realSQL {
-		return s.DefaultStoreAdapter.InsertSchema(ctx, schema)
+		return s.DefaultStoreAdapter.InsertSchema(s.lctx(ctx), schema)
 	}
 	return s.call(ctx, "InsertSchema", schema.Version, lockStmtKinds, func(sess *Session) error {
 		k := rowKey{"schema", s.l.Name, schema.Version}
@@ -733,7 +739,7 @@ func decodeSchema(raw []byte) (*ledger.Schema, error) {
 
 func (s *SimStore) FindSchema(ctx context.Context, version string) (*ledger.Schema, error) {
 	if s.w.realSQL {
-		return s.DefaultStoreAdapter.FindSchema(ctx, version)
+		return s.DefaultStoreAdapter.FindSchema(s.lctx(ctx), version)
 	}
 	var out *ledger.Schema
 	err := s.call(ctx, "FindSchema", version, stmtKinds, func(sess *Session) error {
@@ -766,7 +772,7 @@ func (s *SimStore) allSchemas(sess *Session) ([]*ledger.Schema, error) {
 
 func (s *SimStore) FindLatestSchemaVersion(ctx context.Context) (*string, error) {
 	if s.w.realSQL {
-		return s.DefaultStoreAdapter.FindLatestSchemaVersion(ctx)
+		return s.DefaultStoreAdapter.FindLatestSchemaVersion(s.lctx(ctx))
 	}
 	var out *string
 	err := s.call(ctx, "FindLatestSchemaVersion", "", stmtKinds, func(sess *Session) error {
@@ -828,7 +834,7 @@ func (s *SimStore) lastLog(sess *Session) *LogRow {
 
 func (s *SimStore) InsertLog(ctx context.Context, log *ledger.Log) error {
 	if s.w.realSQL {
-		return s.DefaultStoreAdapter.InsertLog(ctx, log)
+		return s.DefaultStoreAdapter.InsertLog(s.lctx(ctx), log)
 	}
 	hashed := s.l.HasFeature(features.FeatureHashLogs, "SYNC")
 	if hashed {
@@ -934,7 +940,7 @@ func (s *SimStore) InsertLog(ctx context.Context, log *ledger.Log) error {
 
 func (s *SimStore) ReadLogWithIdempotencyKey(ctx context.Context, ik string) (*ledger.Log, error) {
 	if s.w.realSQL {
-		return s.DefaultStoreAdapter.ReadLogWithIdempotencyKey(ctx, ik)
+		return s.DefaultStoreAdapter.ReadLogWithIdempotencyKey(s.lctx(ctx), ik)
 	}
 	var out *ledger.Log
 	err := s.call(ctx, "ReadLogWithIdempotencyKey", ik, stmtKinds, func(sess *Session) error {
